@@ -325,6 +325,45 @@ func TestC11(t *testing.T) {
 		}
 		var sv *wsx.Server
 		var aerr error
+		if rapid.IntRange(0, 7).Draw(rt, "bufferingWriter") == 0 {
+			// a server that builds the response in the connection's bufio.Writer and hands that
+			// writer over on Hijack with the head still in it: the 101 must reach the client, in
+			// front of the first frame, when the new connection first writes
+			lib, peer := memconn.Pipe()
+			defer peer.Close()
+			defer lib.Close()
+			w := wsx.NewRespWriter(lib)
+			w.HeadInWriter = true
+			sv, aerr = wsx.AcceptWith(w, r, &websocket.AcceptOptions{Subprotocols: q.Supported})
+			sv.Peer = peer
+			out := c11Outcome{Code: sv.W.Code, Hijacked: sv.W.Hijacked, Conn: sv.Conn, Err: aerr, H: sv.W.H}
+			msg := checkC11(q, text, verdict, key, out)
+			if msg == "" && sv.Conn != nil {
+				ctx, cancel := context.WithTimeout(context.Background(), 10*time.Second)
+				werr := sv.Conn.Write(ctx, websocket.MessageText, []byte("hi"))
+				cancel()
+				wire := string(peer.InRecording())
+				head, rest, found := strings.Cut(wire, "\r\n\r\n")
+				switch {
+				case werr != nil:
+					msg = fmt.Sprintf("first Write on the accepted connection failed: %v", werr)
+				case !strings.HasPrefix(wire, "HTTP/1.1 101 "):
+					msg = fmt.Sprintf("the response head that was in the hijacked bufio.Writer never reached the client: the first bytes on the wire are %q", wire[:min(len(wire), 40)])
+				case !found || (key != "" && !strings.Contains(head, "Sec-Websocket-Accept: "+ref.AcceptKey(key)+"\r\n")):
+					msg = fmt.Sprintf("the response head on the wire is incomplete or carries the wrong accept value: %q", head)
+				case rest != "\x81\x02hi":
+					msg = fmt.Sprintf("behind the response head the wire carries %q instead of the first frame", rest[:min(len(rest), 40)])
+				}
+			}
+			if sv.Conn != nil {
+				sv.Conn.CloseNow()
+			}
+			rec.Case(true, "buffering-writer|"+text, "response-head-inside-the-hijacked-bufio-writer", "verdict:"+verdict)
+			if msg != "" {
+				rt.Fatalf("C11 (buffering ResponseWriter) verdict=%s muts=%v: %s\nrequest:\n%s", verdict, q.Muts, msg, text)
+			}
+			return
+		}
 		if rapid.IntRange(0, 5).Draw(rt, "frameworkWriter") == 0 {
 			// a framework's ResponseWriter (gin): the status only goes out when WriteHeaderNow is called
 			lib, peer := memconn.Pipe()
